@@ -1,10 +1,86 @@
 import Driver.Util
-open Lean Driver
+import GinjaxVerif.Model.C15
+open Lean Driver GinjaxVerif.C15
 
+/-!
+Driver for C15.  Frames are `(code, level)`: an integer identity and the number of times the
+frame has been average-pooled (`pool` is opaque in the model; here it counts).  Multi-images are
+lists of `[key, block]` pairs in insertion order, keys are strings.
+-/
 namespace Driver.C15
 
-def handle (op : String) (_j : Json) : R Json := do
+abbrev Frame := Int × Nat
+
+def poolF (x : Frame) : Frame := (x.1, x.2 + 1)
+
+def jFrame (x : Frame) : Json := Json.arr #[jInt x.1, jNat x.2]
+
+def asPair {β} (g : Json → R β) (j : Json) : R (String × β) :=
+  match j with
+  | .arr #[k, v] => do
+    let k ← asStr k
+    let v ← g v
+    pure (k, v)
+  | _ => throw s!"not a [key, block] pair: {j.compress}"
+
+def asFrame (j : Json) : R Frame := do
+  let c ← asInt j
+  pure (c, 0)
+
+def jMI {β} (g : β → Json) (m : MI String β) : Json :=
+  jList (fun kb => Json.arr #[jStr kb.1, g kb.2]) m
+
+def jIdx (l : List (List Nat)) : Json := jList (jList jNat) l
+
+def handle (op : String) (j : Json) : R Json := do
   match op with
+  | "c15.idxs" =>
+    let p ← natF j "p"
+    let f ← natF j "f"
+    let dt ← natF j "dt"
+    let T ← intF j "T"
+    match timeSeriesIdxs p f dt T with
+    | none => throw "rejected"
+    | some (a, b) => pure (Json.mkObj [("in", jIdx a), ("out", jIdx b)])
+  | "c15.windows" =>
+    let T ← natF j "T"
+    let p ← natF j "p"
+    let f ← natF j "f"
+    let dt ← natF j "dt"
+    let s ← natF j "s"
+    let ds ← natF j "ds"
+    let dyn ← listF (asPair (asList asFrame)) j "dyn"
+    let const ← listF (asPair (asList asFrame)) j "const"
+    match toWindows poolF T p f dt s ds dyn const with
+    | none => throw "rejected"
+    | some (x, y) =>
+      pure (Json.mkObj [("x", jMI (jList (jList jFrame)) x), ("y", jMI (jList (jList jFrame)) y)])
+  | "c15.batch" =>
+    let T ← natF j "T"
+    let p ← natF j "p"
+    let f ← natF j "f"
+    let dt ← natF j "dt"
+    let s ← natF j "s"
+    let ds ← natF j "ds"
+    let dyn ← listF (asPair (asList (asList asFrame))) j "dyn"
+    let const ← listF (asPair (asList (asList asFrame))) j "const"
+    match batchTimeSeries poolF T p f dt s ds dyn const with
+    | none => throw "rejected"
+    | some (x, y) =>
+      pure (Json.mkObj [("x", jMI (jList (jList jFrame)) x), ("y", jMI (jList (jList jFrame)) y)])
+  | "c15.spec" =>
+    -- the sentence of the property for one type with `c` channels; frame (ch, t) ↦ ch*1000 + t
+    let T ← natF j "T"
+    let p ← natF j "p"
+    let f ← natF j "f"
+    let dt ← natF j "dt"
+    let s ← natF j "s"
+    let c ← natF j "c"
+    let fr : Nat → Nat → Nat := fun ch t => ch * 1000 + t
+    let n := nWindows T p f dt s
+    pure (Json.mkObj [("n", jNat n),
+      ("input", jList (jList jNat) (specBlock n c p 0 dt s fr)),
+      ("target", jList (jList jNat) (specBlock n c f p dt s fr))])
   | _ => throw s!"unknown op {op}"
 
 end Driver.C15
